@@ -270,6 +270,31 @@ def run_config(cfg, res):
         break
   res.sample(dict(cfg=cfg['name'], rules=FIXED_RULES, alphabet=[repr(a) for a in alphabet], depth=L), cap=1)
 
+  # ---- replay / backfill family: the same old intervals are written again and again across flush ticks, with more
+  # intervals buffered than MAX_AGGREGATION_INTERVALS + 2 (exercises trimming, expiry and re-creation of interval buffers)
+  rules = load_rules(FIXED_RULES)
+  for case in range(120 if cfg['tier'] == 'quick' else 600):
+    nint = cfg['max'] + r.randint(1, 5)
+    offs = [-10 * k for k in range(nint)]
+    if r.random() < 0.5:
+      r.shuffle(offs)
+    else:
+      offs.sort(reverse=True)          # newest first, the oldest interval is written last
+    series = r.choice([A, B])
+    evs = [('arrive', series, o, r.randrange(1, 400) * 0.25) for o in offs]
+    pet = r.choice(offs[-2:])          # the interval the replay keeps hitting
+    for rnd in range(r.randint(2, 4)):
+      evs.append(('adv', r.choice([1, 5, 10, 10, 11, 20])))
+      for _ in range(r.randint(1, 4)):
+        c = r.random()
+        o = pet if c < 0.6 else (0 if c < 0.8 else r.choice(offs))
+        evs.append(('arrive', series if r.random() < 0.85 else B, o, r.randrange(1, 400) * 0.25))
+    viol, nemit, late = run_sequence(rules, evs, 'replay')
+    res.count('sequences_executed')
+    res.count('replay_sequences')
+    res.case(repr(evs), nontrivial=(nemit >= 1 and late >= 1))
+    report(viol, FIXED_RULES, evs, 'replay')
+
   # ---- random rule sets and streams
   from checks.c16_rules import names_for
   for case in range(25 if cfg['tier'] == 'quick' else 120):
